@@ -65,6 +65,22 @@ def static_obligations(tier):
     recs = [{"oid": "defaults/file_resolver.defaults:DEFAULT_INCLUDES/only_md",
              "status": "discharged" if list(Df.DEFAULT_INCLUDES) == ["*.md"] else "refuted",
              "src": "DEFAULT_INCLUDES == ['*.md'] (README: only *.md files by default)", "detail": repr(Df.DEFAULT_INCLUDES)}]
+    # the module-level default lists are never handed out un-copied (a caller that extends its list must not extend them)
+    from vfcore import static
+    mods = static.package_modules(include=("flowmark.file_resolver.types", "flowmark.file_resolver.defaults", "flowmark.file_resolver.resolver"))
+    for r in static.frame_obligations(mods):
+        if "/module_state_unshared" in r["oid"] or r["oid"].endswith("/no_shared_mutation") or r["oid"].endswith("/no_nonlocal_store"):
+            recs.append(r)
+    import ast as _ast
+    ty = mods["flowmark.file_resolver.types"]
+    for fn in _ast.walk(ty):
+        if isinstance(fn, _ast.FunctionDef) and fn.name in ("effective_exclude", "effective_include"):
+            bad = [_ast.unparse(x) for x in _ast.walk(fn) if isinstance(x, (_ast.IfExp, _ast.BoolOp, _ast.Assign, _ast.Return))
+                   for v in ([x.body, x.orelse] if isinstance(x, _ast.IfExp) else x.values if isinstance(x, _ast.BoolOp) else [x.value])
+                   if isinstance(v, _ast.Name) and v.id.startswith("DEFAULT_")]
+            recs.append({"oid": "frame/file_resolver.types:FileResolverConfig.%s/defaults_copied_before_use" % fn.name,
+                         "status": "discharged" if not bad else "refuted",
+                         "src": "a DEFAULT_* list enters the effective list only through a copy (list(..), [*..], + ..)", "detail": repr(bad)})
     for name in DOCUMENTED_DEFAULT_EXCLUDES:
         recs.append({"oid": "defaults/file_resolver.defaults:DEFAULT_EXCLUDES/%s" % name,
                      "status": "discharged" if name + "/" in Df.DEFAULT_EXCLUDES else "refuted",
@@ -95,6 +111,14 @@ SCENARIOS = [
      ["p/top.md", "p/x/b.md", "p/y/a.md", "p/y/b.md"]),
     (["q/.flowmarkignore=b.md\n", "q/sub/.flowmarkignore=a.md\n", "q/sub/a.md", "q/sub/b.md", "q/a.md", "q/b.md"], {}, ["q", "q/sub"],
      ["q/a.md", "q/sub/a.md", "q/sub/b.md"]),
+    # the literal prefix of a glob is the user's choice: an excluded name IN that prefix (or above it) excludes nothing
+    (["vendor/guide/a.md", "vendor/guide/sub/b.md", "build/x/y.md", "pkg/dist/notes/n.md"], {}, ["vendor/guide/*.md"], ["vendor/guide/a.md"]),
+    (["vendor/guide/a.md", "vendor/guide/sub/b.md", "build/x/y.md", "pkg/dist/notes/n.md"], {}, ["build/**/*.md", "pkg/dist/notes/*.md"],
+     ["build/x/y.md", "pkg/dist/notes/n.md"]),
+    (["vendor/guide/a.md", "vendor/guide/node_modules/m.md"], {}, ["vendor/guide/**/*.md"], ["vendor/guide/a.md"]),
+    # hard links are different files of the tree (two directory entries, two paths)
+    (["docs/a.md", "docs/copy.md<-docs/a.md", "other/again.md<-docs/a.md", "k.md"], {}, ["."], ["docs/a.md", "docs/copy.md", "k.md", "other/again.md"]),
+    (["docs/a.md", "docs/copy.md<-docs/a.md", "k.md"], {}, ["docs/copy.md", "docs", "*.md"], ["docs/a.md", "docs/copy.md", "k.md"]),
 ]
 
 
@@ -106,10 +130,17 @@ def scenarios(viol):
         root = os.path.join(base, "t")
         try:
             for f in files:
+                if "<-" in f:
+                    continue
                 f, _, content = f.partition("=")
                 os.makedirs(os.path.dirname(os.path.join(root, f)), exist_ok=True)
                 with open(os.path.join(root, f), "w") as fh:
                     fh.write(content or "x")
+            for f in files:
+                if "<-" in f:
+                    new_name, _, existing = f.partition("<-")
+                    os.makedirs(os.path.dirname(os.path.join(root, new_name)), exist_ok=True)
+                    os.link(os.path.join(root, existing), os.path.join(root, new_name))
             want = expect if expect is not None else [os.path.relpath(p, os.path.realpath(root)) for p in reference(root, cfg, None)]
             with in_dir(root):
                 for order in (list(args), list(reversed(args))):
@@ -124,8 +155,20 @@ def scenarios(viol):
 
 def bounded(tier, seed):
     from flowmark.file_resolver import FileResolver, FileResolverConfig
+    from flowmark.file_resolver import defaults as _Df
     rnd = random.Random(seed)
     viol, evals, distinct, samples = [], 0, set(), []
+    defaults_before = (list(_Df.DEFAULT_EXCLUDES), list(_Df.DEFAULT_INCLUDES))
+    # a resolution with extra patterns leaves nothing behind for the next one in the same process
+    FileResolverConfig(extend_exclude=["zz-one/"], extend_include=["*.zz"]).effective_exclude
+    r_ = FileResolver(FileResolverConfig(extend_exclude=["zz-two/"], extend_include=["*.zz"]))
+    evals += 1
+    later = FileResolverConfig()
+    if (list(_Df.DEFAULT_EXCLUDES), list(_Df.DEFAULT_INCLUDES)) != defaults_before or "zz-two/" in later.effective_exclude \
+            or "zz-one/" in later.effective_exclude or "*.zz" in later.effective_include:
+        viol.append({"clause": "defaults_not_mutated", "input": {"history": "FileResolverConfig(extend_exclude=['zz-one/']).effective_exclude; FileResolver(FileResolverConfig(extend_exclude=['zz-two/']))"},
+                     "got": {"effective_exclude": [x for x in later.effective_exclude if x.startswith("zz")], "effective_include": later.effective_include}})
+        _Df.DEFAULT_EXCLUDES[:] = defaults_before[0] if isinstance(_Df.DEFAULT_EXCLUDES, list) else _Df.DEFAULT_EXCLUDES
     evals += scenarios(viol)
     n = 40 if tier == "quick" else 400
     for i in range(n):
@@ -232,7 +275,7 @@ def bounded(tier, seed):
         finally:
             shutil.rmtree(base, ignore_errors=True)
     return {"evaluations": evals, "distinct_nontrivial": len(distinct), "violations": viol, "samples": samples,
-            "rule": "(also: 12 hand-written scenarios (incl. ignore files below / beside earlier arguments) -- same-named directories under a multi-segment exclusion, directories holding only sub-directories, force_exclude file + its directory in both orders, dot-names under globs; and glob completeness: **/*.md from the root finds every file of the reference walk) seeded trees (directories/files from fixed pools, nesting <= 3, symlinks to a file and a directory outside the tree and "
+            "rule": "(also: 17 hand-written scenarios (excluded names inside a glob's literal prefix, hard links) (incl. ignore files below / beside earlier arguments) -- same-named directories under a multi-segment exclusion, directories holding only sub-directories, force_exclude file + its directory in both orders, dot-names under globs; and glob completeness: **/*.md from the root finds every file of the reference walk) seeded trees (directories/files from fixed pools, nesting <= 3, symlinks to a file and a directory outside the tree and "
                     "to a file inside, file sizes around the limit, also behind a symbolic link, a .flowmarkignore at the root (sometimes rule-less) and / or above it) x 10 settings (incl. multi-segment user exclusions and an empty exclude list, which switches the default exclusions off): traversal result == reference "
                     "walk written from the property; sorted/distinct/absolute; same result for permuted and duplicated arguments (also two directory arguments, one nested in a directory the outer walk prunes, in both orders), also when files are named again through '..' / relative spellings (no file twice, canonical paths); "
                     "explicit files bypass exclusions but not the size limit; glob results pass the same filters; distinct = distinct "
